@@ -29,7 +29,7 @@ type Log struct {
 	Addr   []byte // emitting contract
 	Topics [][]byte
 	Data   []byte
-	Kind   string   // transfer | created | tags | decoy-topic (= Approval) | decoy-count | decoy-nodata | decoy-short
+	Kind   string   // order (maker = From, amt = Value) | transfer | created | tags | decoy-topic (= Approval) | decoy-count | decoy-nodata | decoy-short
 	From   []byte   // transfer; decoy-topic: owner
 	To     []byte   // transfer; decoy-topic: spender
 	Value  uint64   // transfer; decoy-topic: allowance
@@ -112,6 +112,8 @@ const (
 	SigCreated  = "Created(address)"
 	SigApproval = "Approval(address,address,uint256)"
 	SigTags     = "Tags(string[])"
+	// one topic, a static tuple in the data: maker, amt
+	SigOrder = "Order((address,uint256))"
 	// three topics and NO data (a Transfer-shaped declaration would need one word)
 	SigOwnership = "OwnershipTransferred(address,address)"
 	// three topics, emitted by a raw LOG3 with four bytes of data
@@ -157,6 +159,9 @@ type GenOpts struct {
 	Traces  bool // generate trace actions
 	Created bool // generate Created(address) logs (for filter_ref graphs)
 	Decoys  bool
+	// Orders: generate Order((address maker, uint256 amt) o) logs; the maker is picked like
+	// the sender of a transfer (often an address created earlier: filter_ref graphs)
+	Orders bool `json:",omitempty"`
 	// OtherEvery: with Decoys one Transfer in OtherEvery is emitted by OtherAddr instead of
 	// the token (0 = 4)
 	OtherEvery int `json:",omitempty"`
@@ -226,6 +231,20 @@ func GenBlock(r *lib.RNG, tag int, num uint64, parent []byte, o GenOpts, st *Gen
 				}
 				l.Topics = [][]byte{Topic0(SigTags)}
 				l.Data = encodeStringArray(l.Tags)
+			case o.Orders && k >= 80:
+				l.Kind, l.Addr = "order", TokenAddr
+				npick := len(st.Created)
+				if st.pickable >= 0 && st.pickable < npick {
+					npick = st.pickable
+				}
+				if npick > 0 && r.Bool() {
+					l.From = st.Created[r.Intn(npick)]
+				} else {
+					l.From = Addr(1 + r.Intn(6)) // never created
+				}
+				l.Value = uint64(r.Intn(1 << 20))
+				l.Topics = [][]byte{Topic0(SigOrder)}
+				l.Data = append(word(l.From), wordU64(l.Value)...)
 			case o.Created && k < 25:
 				st.nextNew++
 				l.Kind, l.Made, l.Addr = "created", Addr(1000+o.AddrBase+tag*100000+st.nextNew), TokenAddr
